@@ -33,7 +33,7 @@ PROPS["C11"] = dict(
     trace="Trace_C11",
     drive=dict(quick=dict(n=20000, size=4), thorough=dict(n=400000, size=6)),
     nontrivial=lambda e: (e["op"] == "dec" and len(e["args"]["ds"]) >= 2) or (e["op"] == "enc" and any(v["bits"] for v in e["args"]["vals"])),
-    rule="cases: (a) every digit string / value list of the TLC universe (all strings up to FullLen over the 64 digits, up to RedLen over 9 boundary digits, continuation runs of 11..14 digits, all magnitudes up to SmallBits bits, 2^k, 2^k-1, 2^(k-1)+1 for k<=62, both signs), (b) seeded random values uniform in bit length 0..62, u32 differences, random/canonical/damaged texts, foreign bytes; distinct = distinct (op,args); non-trivial = decode of >= 2 symbols or encode of a non-zero value",
+    rule="cases: (a) every digit string / value list of the TLC universe (all strings up to FullLen over the 64 digits, up to RedLen over 9 boundary digits, continuation runs of 11..14 digits, all magnitudes up to SmallBits bits, 2^k, 2^k-1, 2^(k-1)+1 for k<=62, both signs), (b) seeded random values uniform in bit length 0..62, u32 differences, random/canonical/damaged texts, foreign bytes; distinct = distinct (op,args); non-trivial = decode of >= 2 symbols or encode of a non-zero value; one value per digit-count class 1..15 (payloads random / all zero / all ones)",
     assumptions=COMMON_ASSUMPTIONS + ["the 2^33 exhaustive sweep of the quantifier text is not reproduced (see DESIGN.md C11)"],
 )
 
@@ -75,7 +75,7 @@ PROPS["C02"] = dict(
     drive=dict(quick=dict(n=1500, size=6), thorough=dict(n=30000, size=10)),
     nontrivial=lambda e: e["out"].get("k") == "ok" and (_doc_ntoks(e) >= 2 or e["out"].get("kind") == "index"),
     corrupt=_corrupt_decode,
-    rule="cases: every mappings text of the TLC universe (MC_Mappings: leads x segments x separators x trails x array sizes, plus every single fault) wrapped in a default envelope, and seeded random regular/Hermes/index documents (random key order, optional keys, junk header, null sources, numeric names, both debug id keys, source roots); distinct = distinct document; non-trivial = decodes successfully with >= 2 tokens or is an index map",
+    rule="cases: every mappings text of the TLC universe (MC_Mappings: leads x segments x separators x trails x array sizes, plus every single fault) wrapped in a default envelope, and seeded random regular/Hermes/index documents (random key order, optional keys, junk header, null sources, numeric names, both debug id keys, source roots); distinct = distinct document; non-trivial = decodes successfully with >= 2 tokens or is an index map; numeric names as literals beyond 53 bits and fractions; unknown keys with well-formed values anywhere in the key order; random rangeMappings; refused documents (C06's) mixed into the stream; url next to an embedded map; sections sharing an offset",
     assumptions=COMMON_ASSUMPTIONS + ["documents are written by the harness's own writer (string escaping delegated to serde_json)"],
 )
 
@@ -92,7 +92,7 @@ PROPS["C06"] = dict(
     drive=dict(quick=dict(n=6000, size=4), thorough=dict(n=100000, size=8)),
     nontrivial=lambda e: (len(e["args"]["doc"]["mappings"][0]) >= 2 if e["args"]["doc"]["mappings"] else bool(e["args"]["doc"].get("sections"))),
     corrupt=_corrupt_decode,
-    rule="cases: every text of MC_Mappings (base texts and every single fault at every position, 3 array sizes incl. empty arrays) and seeded random well-formed texts damaged by 1-2 faults (9 fault operators); distinct = distinct (text, sizes); non-trivial = text of >= 2 symbols",
+    rule="cases: every text of MC_Mappings (base texts and every single fault at every position, 3 array sizes incl. empty arrays) and seeded random well-formed texts damaged by 1-2 faults (9 fault operators); distinct = distinct (text, sizes); non-trivial = text of >= 2 symbols; faults placed in any mappings text of flat / Hermes / (nested) index documents; texts written for more sources / names than declared with independently sized tables",
     assumptions=COMMON_ASSUMPTIONS,
 )
 
@@ -162,7 +162,7 @@ PROPS["C01"] = dict(
     drive=dict(quick=dict(n=600, size=4), thorough=dict(n=12000, size=10)),
     nontrivial=lambda e: e["out"].get("k") == "ok" and (_map_ntoks(e) >= 2 or e["args"]["p1"].get("kind") == "index"),
     corrupt=_corrupt_map,
-    rule="cases: every ordered token list of MC_Encode (<= MaxToks tokens over Lines x Cols with 5 payload kinds, duplicates and shared positions), each built via new/builder/doc; seeded random models (<= ~50..120 tokens, duplicate/empty/unicode strings, roots, contents, ignore lists, debug ids) and random Hermes / nested index documents; distinct = distinct (how, model); non-trivial = >= 2 tokens or an index map",
+    rule="cases: every ordered token list of MC_Encode (<= MaxToks tokens over Lines x Cols with 5 payload kinds, duplicates and shared positions), each built via new/builder/doc; seeded random models (<= ~50..120 tokens, duplicate/empty/unicode strings, roots, contents, ignore lists, debug ids) and random Hermes / nested index documents; distinct = distinct (how, model); non-trivial = >= 2 tokens or an index map; every model also through a setters route (set_source_root / set_source / set_source_contents / set_file / add_to_ignore_list after construction); column and original-position deltas from every VLQ digit-count class; generated source / root names of mixed UTF-8 width; names spelled like sources; sections sharing an offset",
     assumptions=COMMON_ASSUMPTIONS,
 )
 
@@ -179,7 +179,7 @@ PROPS["C03"] = dict(
     drive=dict(quick=dict(n=500, size=4), thorough=dict(n=10000, size=10)),
     nontrivial=lambda e: e["out"].get("k") == "ok" and (_map_ntoks(e) >= 2 or e["args"].get("p1", {}).get("kind") == "index"),
     corrupt=_corrupt_map,
-    rule="cases: as C01, plus seeded maps with FULL-RANGE 32-bit positions (columns/lines at 0, 2^31+-1, 2^32-1, deltas up to +-(2^32-1)) whose mappings text is decoded by the specification with exact bit-list arithmetic (Mappings!DecodeV); per realised map the direct serialisation plus the serialisations of rewrite(default), adjust_mappings(self), flatten (index maps) and the to_data_url payload; distinct = distinct (how, via, map projection); non-trivial = >= 2 tokens or an index map",
+    rule="cases: as C01, plus seeded maps with FULL-RANGE 32-bit positions (columns/lines at 0, 2^31+-1, 2^32-1, deltas up to +-(2^32-1)) whose mappings text is decoded by the specification with exact bit-list arithmetic (Mappings!DecodeV); per realised map the direct serialisation plus the serialisations of rewrite(default), adjust_mappings(self), flatten (index maps) and the to_data_url payload; distinct = distinct (how, via, map projection); non-trivial = >= 2 tokens or an index map; every map also written into a short-write sink (1/7/64/4096 bytes per call, interrupted calls); the crate's placeholder strings in the pools",
     assumptions=COMMON_ASSUMPTIONS,
 )
 
@@ -248,7 +248,7 @@ PROPS["C19"] = dict(
     drive=dict(quick=dict(n=5000, size=4), thorough=dict(n=200000, size=6)),
     nontrivial=lambda e: len(e["args"]["base"]) + len(e["args"]["target"]) >= 3,
     corrupt=_corrupt_c19,
-    rule="cases: all pairs of paths of 1..MaxLen (3 quick / 5 thorough) components over 3 names x {absolute, relative} x {'/', '\\\\'}; seeded random pairs of 1..6 components over pools of 2..5 names incl. names with spaces, dots and non-ASCII; distinct = distinct (base, target, abs, sep); non-trivial = at least 3 components in total",
+    rule="cases: all pairs of paths of 1..MaxLen (3 quick / 5 thorough) components over 3 names x {absolute, relative} x {'/', '\\\\'}; seeded random pairs of 1..6 components over pools of 2..5 names incl. names with spaces, dots and non-ASCII; distinct = distinct (base, target, abs, sep); non-trivial = at least 3 components in total; abstract names concretised by confusable strings (case, prefix extension, composed/decomposed accents); aliased arguments (slices of one buffer)",
     assumptions=COMMON_ASSUMPTIONS,
 )
 
@@ -278,7 +278,7 @@ PROPS["C20"] = dict(
     drive=dict(quick=dict(n=3000, size=4), thorough=dict(n=100000, size=8)),
     nontrivial=lambda e: len(e["args"]["bytes"]) >= 12,
     corrupt=_corrupt_c20,
-    rule="cases: every model of MC_RamBundle (0..MaxSlots slots from {empty, NUL-only, 1 byte, non-UTF-8 with embedded NUL}, 2-3 startup codes, every physical order) laid out and left intact or hit by one corruption (truncation at every length; each header/table field set to 0, 1, len-12, len, len+1, 2^31-1, 2^31, 2^32-1, 2^32-sco, 2^32-sco-1; each magic byte changed); seeded random bundles (<= 50 modules) with random truncation / field / magic / byte corruptions; distinct = distinct byte string; non-trivial = at least a complete header",
+    rule="cases: every model of MC_RamBundle (0..MaxSlots slots from {empty, NUL-only, 1 byte, non-UTF-8 with embedded NUL}, 2-3 startup codes, every physical order) laid out and left intact or hit by one corruption (truncation at every length; each header/table field set to 0, 1, len-12, len, len+1, 2^31-1, 2^31, 2^32-1, 2^32-sco, 2^32-sco-1; each magic byte changed); seeded random bundles (<= 50 modules) with random truncation / field / magic / byte corruptions; distinct = distinct byte string; non-trivial = at least a complete header; one cursor session on the module iterator; fields written in the other byte order; payloads beginning or ending with bytes meaningful elsewhere",
     assumptions=COMMON_ASSUMPTIONS + ["harness built with feature ram_bundle; unbundle (file system) bundles are out of scope"],
 )
 
@@ -308,7 +308,7 @@ PROPS["C12"] = dict(
     drive=dict(quick=dict(n=1500, size=3), thorough=dict(n=40000, size=6)),
     nontrivial=lambda e: (e["op"] == "reader" and len(e["args"]["input"]) >= 2) or (e["op"] == "decode" and len(e["args"]["bytes"]) > 10),
     corrupt=_corrupt_c12,
-    rule="cases: every input of <= MaxLen (5 quick / 6 thorough) bytes over {')', \"'\", CR, LF, 'x'} x every chunking (TLC InnerRead with any k), each also in front of a real document; seeded: every junk start byte, garbage incl. non-ASCII, \\n / \\r\\n / bare \\r / \\r x \\n endings, header only, valid / truncated / corrupted regular, Hermes and index documents, chunk schedules with 1-byte reads and boundaries at/inside the header end; distinct = distinct (op, args); non-trivial = >= 2 input bytes (reader) or a document (decode)",
+    rule="cases: every input of <= MaxLen (5 quick / 6 thorough) bytes over {')', \"'\", CR, LF, 'x'} x every chunking (TLC InnerRead with any k), each also in front of a real document; seeded: every junk start byte, garbage incl. non-ASCII, \\n / \\r\\n / bare \\r / \\r x \\n endings, header only, valid / truncated / corrupted regular, Hermes and index documents, chunk schedules with 1-byte reads and boundaries at/inside the header end; distinct = distinct (op, args); non-trivial = >= 2 input bytes (reader) or a document (decode); JSON front-end members (non-UTF-8 / lone-surrogate / out-of-range values of unknown keys, deep nesting, repeated known keys)",
     assumptions=COMMON_ASSUMPTIONS + ["hook H2 (cfg sourcemap_verif) re-exports StripHeaderReader/strip_junk_header; add-only"],
 )
 HOOK_COMMITS.append("95aad40")
@@ -340,7 +340,7 @@ PROPS["C15"] = dict(
     drive=dict(quick=dict(n=1500, size=4), thorough=dict(n=30000, size=7)),
     nontrivial=lambda e: len(e["args"]["text"]) >= 2,
     corrupt=_corrupt_c15,
-    rule="cases: every text of <= MaxText chars over {LF, CR, 'a', U+1F60D} x every history of Depth requests over get_line(0..MaxText+1), line_count, lines (TLC), every (line, c, n) slice with c, n in {0..3, u32::MAX}; seeded texts of up to ~200 chars (2/3/4-byte characters, CR/LF mixes) with up to 50 requests incl. extreme slices; distinct = distinct (op, args) ; non-trivial = text of >= 2 characters",
+    rule="cases: every text of <= MaxText chars over {LF, CR, 'a', U+1F60D} x every history of Depth requests over get_line(0..MaxText+1), line_count, lines (TLC), every (line, c, n) slice with c, n in {0..3, u32::MAX}; seeded texts of up to ~200 chars (2/3/4-byte characters, CR/LF mixes) with up to 50 requests incl. extreme slices; distinct = distinct (op, args) ; non-trivial = text of >= 2 characters; clone calls in histories; long-line segment family (byte lengths 2^k-2..2^k+2, k=6..13) judged through SegLemma / SegSliceLemma",
     assumptions=COMMON_ASSUMPTIONS,
 )
 
@@ -366,7 +366,7 @@ PROPS["C16"] = dict(
     nontrivial=lambda e: e["op"] != "end" and len(e["args"]["text"]) >= 1,
     corrupt=_corrupt_c15,
     corruptible=lambda e: e["op"] != "end",
-    rule="cases: every interleaving (TLC, no VIEW: the schedule is part of the state) of 2 threads x 1 call (quick) / 2 threads x <=2 calls and 3 threads x 1 call (thorough) over get_line(0..2) and line_count on texts with 0..3 lines, replayed as thread schedules on real threads; seeded: 2..4 threads x 1..3 calls (get_line, line_count, lines) under random schedules and free-running; distinct = distinct (call, text, thread); non-trivial = non-empty text",
+    rule="cases: every interleaving (TLC, no VIEW: the schedule is part of the state) of 2 threads x 1 call (quick) / 2 threads x <=2 calls and 3 threads x 1 call (thorough) over get_line(0..2) and line_count on texts with 0..3 lines, replayed as thread schedules on real threads; seeded: 2..4 threads x 1..3 calls (get_line, line_count, lines) under random schedules and free-running; distinct = distinct (call, text, thread); non-trivial = non-empty text; threads that go on with their own clone of the view (MC_SVConc clone configs and driver)",
     assumptions=COMMON_ASSUMPTIONS + ["hook H1 (cfg sourcemap_verif): three yield points in SourceView::get_line calling a thread-local callback; add-only, no-op without a callback"],
 )
 HOOK_COMMITS.append("59fd72d")
@@ -402,7 +402,7 @@ PROPS["C13"] = dict(
     nontrivial=lambda e: e["op"] not in ("set_file", "set_debug_id"),
     corrupt=_corrupt_c13,
     corruptible=lambda e: e["op"] in ("add_source", "add_name", "add", "add_raw") or bool(e["out"].get("obs")),
-    rule="cases: every history of MC_Builder (Depth builder calls from ~40 enabled calls, into_sourcemap, MapDepth map calls from ~25) ; seeded histories of up to ~100 builder calls over pools of 15 sources / 7 roots / 7 names followed by up to ~30 map setter / saveload calls; distinct = distinct (call, position in history); non-trivial = any call other than set_file/set_debug_id",
+    rule="cases: every history of MC_Builder (Depth builder calls from ~40 enabled calls, into_sourcemap, MapDepth map calls from ~25) ; seeded histories of up to ~100 builder calls over pools of 15 sources / 7 roots / 7 names followed by up to ~30 map setter / saveload calls; distinct = distinct (call, position in history); non-trivial = any call other than set_file/set_debug_id; per-case string pools (generated mixed-width names, 18..80 distinct sources revisited, names composed out of the roots in play); the builder's own getters observed after every builder call",
     assumptions=COMMON_ASSUMPTIONS,
 )
 
@@ -429,7 +429,7 @@ PROPS["C10"] = dict(
     drive=dict(quick=dict(n=1500, size=3), thorough=dict(n=20000, size=5)),
     nontrivial=lambda e: len(e["args"]["orig"]) >= 1 and len(e["args"]["adj"]) >= 1,
     corrupt=_corrupt_c10,
-    rule="cases: every (orig, adj) of MC_Adjust: <= MaxO original and <= MaxA adjustment tokens over Lines x Cols, adjustment displacements {(0,0),(0,2),(1,0),(1,1)}, without and with duplicated positions; seeded random pairs on grids up to 50x50 with up to ~56 tokens a side, a third of them with duplicated positions, tokens handed to the crate in shuffled order; distinct = distinct (orig, adj); non-trivial = both maps non-empty",
+    rule="cases: every (orig, adj) of MC_Adjust: <= MaxO original and <= MaxA adjustment tokens over Lines x Cols, adjustment displacements {(0,0),(0,2),(1,0),(1,1)}, without and with duplicated positions; seeded random pairs on grids up to 50x50 with up to ~56 tokens a side, a third of them with duplicated positions, tokens handed to the crate in shuffled order; distinct = distinct (orig, adj); non-trivial = both maps non-empty; adjustment tokens without a source / with another source / with a name; debug ids and roots on either map (equal, different, absent)",
     assumptions=COMMON_ASSUMPTIONS,
 )
 
@@ -488,7 +488,7 @@ PROPS["C14"] = dict(
     drive=dict(quick=dict(n=800, size=3), thorough=dict(n=16000, size=6)),
     nontrivial=lambda e: e["out"].get("k") == "ok" and any(s for s in e["out"]["p"]["scopes"]),
     corrupt=_corrupt_c14,
-    rule="cases: every function-map text of MC_Hermes (<= MaxSegs segments from 8 kinds incl. omitted trailing fields, name index driven out of range, unterminated and foreign-byte segments; ',' ';' ';;') embedded in a 2-source document with 22 tokens over a 4x5 grid of original positions, 36 bytecode offsets; seeded Hermes documents with 1..3 sources, null / empty / unparsable / multi-line function maps; distinct = distinct document; non-trivial = at least one token resolves to a function name",
+    rule="cases: every function-map text of MC_Hermes (<= MaxSegs segments from 8 kinds incl. omitted trailing fields, name index driven out of range, unterminated and foreign-byte segments; ',' ';' ';;') embedded in a 2-source document with 22 tokens over a 4x5 grid of original positions, 36 bytecode offsets; seeded Hermes documents with 1..3 sources, null / empty / unparsable / multi-line function maps; distinct = distinct document; non-trivial = at least one token resolves to a function name; surplus segment fields, empty-but-present function names, a null source entry",
     assumptions=COMMON_ASSUMPTIONS,
 )
 
@@ -517,7 +517,7 @@ PROPS["C08"] = dict(
     drive=dict(quick=dict(n=1200, size=3), thorough=dict(n=8000, size=6)),
     nontrivial=lambda e: e["out"].get("k") == "ok" and len(e["args"]["p"].get("sections", [])) >= 1,
     corrupt=_corrupt_c08,
-    rule="cases: every well-formed index of MC_IndexMap (<= MaxSecs sections at offsets from {(0,0),(0,4),(1,2),(2,0)}, section maps: empty / one token / two lines with a name, shared source names, partial contents and an ignore list / sourceless + range token; unresolved sections; one nested index in thorough) x 40 grid queries; seeded: up to 12 sections (30 tokens each), mid-line starts, Hermes sections, nested indexes to depth 2, 40 random queries; distinct = distinct (index projection, queries); non-trivial = at least one section",
+    rule="cases: every well-formed index of MC_IndexMap (<= MaxSecs sections at offsets from {(0,0),(0,4),(1,2),(2,0)}, section maps: empty / one token / two lines with a name, shared source names, partial contents and an ignore list / sourceless + range token; unresolved sections; one nested index in thorough) x 40 grid queries; seeded: up to 12 sections (30 tokens each), mid-line starts, Hermes sections, nested indexes to depth 2, 40 random queries; distinct = distinct (index projection, queries); non-trivial = at least one section; names, many-section (18..80) and wide-offset families, source roots in section maps, queries around section starts; the same index observed again after get_section_mut changes and after clone",
     assumptions=COMMON_ASSUMPTIONS,
 )
 
@@ -555,7 +555,7 @@ PROPS["C18"] = dict(
     drive=dict(quick=dict(n=800, size=3), thorough=dict(n=16000, size=8)),
     nontrivial=lambda e: (e["op"] == "locate" and len(e["args"]["file"]) > 3) or e["op"] in ("dataurl", "detect"),
     corrupt=_corrupt_c18,
-    rule="cases: every file of MC_Detector (<= MaxLines lines from {code, ref, legacy ref, indented, mid-line look-alike, empty URL, URL with blanks, empty line} x {LF, CRLF, no final newline}); every token list of MC_Encode as a map (three construction routes) for data URLs and detection; seeded files (case/spacing look-alikes, lone CR, non-ASCII blanks, data: URLs) and random flat/Hermes/index maps; distinct = distinct (op, args); non-trivial = file longer than 3 characters or any map event",
+    rule="cases: every file of MC_Detector (<= MaxLines lines from {code, ref, legacy ref, indented, mid-line look-alike, empty URL, URL with blanks, empty line} x {LF, CRLF, no final newline}); every token list of MC_Encode as a map (three construction routes) for data URLs and detection; seeded files (case/spacing look-alikes, lone CR, non-ASCII blanks, data: URLs) and random flat/Hermes/index maps; distinct = distinct (op, args); non-trivial = file longer than 3 characters or any map event; near-miss marker lines; reference discovery through a short-read source",
     assumptions=COMMON_ASSUMPTIONS,
 )
 
@@ -579,7 +579,7 @@ PROPS["C17"] = dict(
     nontrivial=lambda e: len(e["args"]["toks"]) >= 2,
     corrupt=_corrupt_c17,
     corruptible=lambda e: True,
-    rule="cases: every program of MC_NameResolve (<= MaxFrags fragments, a token on every fragment start) x 9..11 names (identifiers of every ECMAScript class incl. non-ASCII/astral/joiner/Other_ID_Start/mark, non-identifiers), queried at every token, one column right of the last and on the next line; seeded multi-line programs (several functions per line, comments with astral characters, names pointing at the blank before the identifier, tokens past the end of a line or on a missing line), 6 queries each, and the 128-budget family; distinct = distinct (op, args); non-trivial = at least 2 tokens",
+    rule="cases: every program of MC_NameResolve (<= MaxFrags fragments, a token on every fragment start) x 9..11 names (identifiers of every ECMAScript class incl. non-ASCII/astral/joiner/Other_ID_Start/mark, non-identifiers), queried at every token, one column right of the last and on the next line; seeded multi-line programs (several functions per line, comments with astral characters, names pointing at the blank before the identifier, tokens past the end of a line or on a missing line), 6 queries each, and the 128-budget family; distinct = distinct (op, args); non-trivial = at least 2 tokens; a representative of every ECMAScript identifier class; declarations whose token carries no name; every third resolution through a clone of the view",
     assumptions=COMMON_ASSUMPTIONS,
 )
 
@@ -602,7 +602,7 @@ PROPS["C05"] = dict(
     corrupt=_corrupt_c05,
     corruptible=lambda e: True,
     harness_timeout=7000,
-    rule="cases: every (kind, fault set) of MC_Lifecycle (3 kinds x ~80 faults, pairs in thorough) concretised on base documents; seeded: arbitrary bytes, JSON-alphabet bytes, 1-4 byte-level mutations (overwrite, delete, insert structural bytes, truncate, splice extreme numbers, duplicate chunks, long VLQ runs, swap) of every repository fixture map, random regular / Hermes / nested index documents (mutated or not), random multi-fault documents; each run through detect, decode, ~all read-only queries, serialise + redecode, 16 rewrite option combinations, flatten; distinct = distinct (input digest, step); non-trivial = any step other than detection",
+    rule="cases: every (kind, fault set) of MC_Lifecycle (3 kinds x ~80 faults, pairs in thorough) concretised on base documents; seeded: arbitrary bytes, JSON-alphabet bytes, 1-4 byte-level mutations (overwrite, delete, insert structural bytes, truncate, splice extreme numbers, duplicate chunks, long VLQ runs, swap) of every repository fixture map, random regular / Hermes / nested index documents (mutated or not), random multi-fault documents; each run through detect, decode, ~all read-only queries, serialise + redecode, 16 rewrite option combinations, flatten; distinct = distinct (input digest, step); non-trivial = any step other than detection; well-formed documents of the map family (long lines with range flags, > 64 sources, every VLQ digit class) through the same life cycle; a sourceless token in the fault documents' base map",
     assumptions=COMMON_ASSUMPTIONS + ["fixtures are read from /repo/tests/fixtures at run time"],
 )
 
